@@ -15,6 +15,9 @@ var defaultForms = map[string][2]string{ // form id -> {form text, expected rend
 	"call":  {"(+ 1 2)", "3"},
 	"quote": {"'q", "q"},
 	"list":  {"(list 1 2)", "(1 2)"},
+	// sixth round
+	"var":   {"a", "1"},        // a bare symbol: the value of the required parameter
+	"call0": {"(list)", "nil"}, // a call without arguments
 }
 
 var defaultFormCases = func() []string {
@@ -26,6 +29,19 @@ var defaultFormCases = func() []string {
 					out = append(out, "D|"+via+"|"+param+"|"+form+"|"+supplied)
 				}
 			}
+		}
+	}
+	// sixth round: a bare symbol and a call without arguments as init-form; the init-forms of &aux (never supplied)
+	for _, via := range []string{"defun", "funcall"} {
+		for _, param := range []string{"optional", "key"} {
+			for _, form := range []string{"var", "call0"} {
+				for _, supplied := range []string{"absent", "supplied"} {
+					out = append(out, "D|"+via+"|"+param+"|"+form+"|"+supplied)
+				}
+			}
+		}
+		for _, form := range []string{"call", "quote", "list", "var", "call0"} {
+			out = append(out, "D|"+via+"|aux|"+form+"|absent")
 		}
 	}
 	return out
@@ -48,6 +64,9 @@ func execD(spec string) (res engine.Result) {
 	want := "(1 " + df[1] + ")"
 	if param == "key" {
 		ll = "(a &key (p " + df[0] + "))"
+	}
+	if param == "aux" {
+		ll = "(a &aux (p " + df[0] + "))"
 	}
 	if supplied == "supplied" {
 		want = "(1 7)"
